@@ -12,19 +12,51 @@ static char cu_msg[512];
 
 static int cu_is(const char *c) { return !strcmp(cu_cls, c); }
 
-/* keys / values / elements are spif_str objects whose text is the number in fixed width, so that the order of
- * spif_str_comp is the order of the numbers */
+/* Keys / values / elements are spif_str objects.  Their text encodes a number v >= 0 so that the order of object
+ * comparison (spif_str_comp = strcmp, bytes UNSIGNED) is the order of the numbers.  Three text families (round 3: values
+ * outside a tiny ASCII alphabet), chosen per harness run or per script:
+ *   0  "%05ld"                                         all-ASCII digits
+ *   1  byte F(v) then "%05ld", F(v) = 1 + v*254/(N+1)  the FIRST byte sweeps 1..255 monotonically over the universe
+ *                                                      0..N+1 (N = cu_N), so ASCII and >= 0x80 first bytes are mixed
+ *   2  'K' then byte v+1 (only if N <= 253)            the LAST byte sweeps 1..255
+ * Numbers above N+1 (the caller's own list entries 1001..) get the largest varying byte and keep their digits. */
+static long cu_N = 3;
+static int cu_enc = 0;        /* current family */
+static int cu_enc_arg = 0;    /* as given on the command line; -1 = chosen per script from its id */
+static int cu_family_for(long sid, int nfam) { return (int) (sid % nfam); }
+static void cu_begin_script(long sid) {
+    if (cu_enc_arg >= 0) cu_enc = cu_enc_arg;
+    else cu_enc = cu_family_for(sid, cu_N <= 253 ? 3 : 2);
+}
 static spif_obj_t cu_mk(long v) {
-    char t[32];
-    snprintf(t, sizeof(t), "%04ld", v);
+    char t[40];
+    if (cu_enc == 1) {
+        long f = (v > cu_N + 1) ? 255 : 1 + (v * 254) / (cu_N + 1);
+        snprintf(t, sizeof(t), "%c%05ld", (int) (unsigned char) f, v);
+    } else if (cu_enc == 2) {
+        if (v > cu_N + 1) snprintf(t, sizeof(t), "K\377%05ld", v);
+        else snprintf(t, sizeof(t), "K%c", (int) (unsigned char) (v + 1));
+    } else {
+        snprintf(t, sizeof(t), "%05ld", v);
+    }
     return SPIF_OBJ(spif_str_new_from_ptr((spif_charptr_t) t));
 }
 static long cu_val(spif_obj_t o) {
-    const char *s;
+    const unsigned char *s;
     if (SPIF_OBJ_ISNULL(o)) return 0;
-    s = (const char *) SPIF_STR_STR(SPIF_STR(o));
-    if (!s || !isdigit((unsigned char) s[0])) return -1000000;      /* scribbled-over or not a number */
-    return atol(s);
+    s = (const unsigned char *) SPIF_STR_STR(SPIF_STR(o));
+    if (!s) return -1000000;
+    if (cu_enc == 1) {
+        if (!s[0] || !isdigit(s[1])) return -1000000;          /* scribbled-over or not one of ours */
+        return atol((const char *) s + 1);
+    }
+    if (cu_enc == 2) {
+        if (s[0] != 'K' || !s[1]) return -1000000;
+        if (s[2]) return isdigit(s[2]) ? atol((const char *) s + 2) : -1000000;
+        return (long) s[1] - 1;
+    }
+    if (!isdigit(s[0])) return -1000000;
+    return atol((const char *) s);
 }
 /* the caller changes its own object */
 static void cu_scribble(spif_obj_t o) {
